@@ -254,6 +254,12 @@ def _prepare(cfg, root, rel):
     crop.sow_combos(combos, verbosity=0)
     if cfg["pre"]:
         crop.grow(tuple(cfg["pre"]), verbosity=0)
+    if cfg["id"] % 7 == 3:
+        # a temporary result file left behind by a grower that was killed while writing (wall-time limit): it is
+        # not a result, the batch is still missing
+        miss = list(crop.missing_results())
+        if miss:
+            open(os.path.join(crop.location, "results", f"xyz-result-{miss[0]}.jbdmp.tmp-999-deadbeef"), "wb").write(b"\x80\x04")
     st = {"dir": d, "name": name, "combos": combos, "bad": [], "runs": [], "script": None}
     st["batch_of"] = {}
     for i in C.batch_files(crop):
